@@ -404,7 +404,7 @@ PROPS['C17'] = {
 
 CLOUD_TRUSTED = [
     'observable effects are modelled by two ghost logs (Device::written, Socket::sent) appended by Device::write / Socket::send; the traits are declared in the unit with exactly these contracts',
-    'frames of GenericCloud::{add_new_peer, update_peer_info, remove_peer, connect_sock} (interface and learning flag untouched; remove_peer sends nothing): shared clause files units/iface/cloud_frame*.ensures, assumed in unit cloud, PROVED on the real bodies in unit peers (under C10: obligations peers::GenericCloud::{add_new_peer, update_peer_info, remove_peer, connect_sock}); send_to the other way round (proved in cloud, assumed in peers)',
+    'frames of GenericCloud::{add_new_peer, update_peer_info, remove_peer, connect_sock} (interface and learning flag untouched; remove_peer sends nothing): shared clause files units/iface/cloud_frame*.ensures, assumed in unit cloud, PROVED on the real bodies in unit peers (under C10: obligations peers::GenericCloud::{add_new_peer, update_peer_info, remove_peer, connect_sock, housekeep_expiry_block}); send_to the other way round (proved in cloud, assumed in peers)',
     'opaque environment with ASSUMED frames (not typed by Verus: HashMap iteration, labelled continue): GenericCloud::broadcast_msg does not write to the interface; GenericCloud::connect_to_peers (called by update_peer_info) touches neither the interface nor the learning flag',
     'PeerCrypto::handle_message never reports a handshake datagram as Message(_): assumed in unit cloud, PROVED in unit buffer (obligations PeerCrypto::handle_message / handle_init_message, with InitState::handle_init as environment)',
     'HashMap<SocketAddr,_> through the vstd model (obeys_key_model::<SocketAddr>, builds_valid_hashers as axioms); HashMap::get_mut contract written in the unit',
@@ -415,7 +415,7 @@ PROPS['C10'] = {
     'level_text': 'Proof (Verus, functions verbatim, environment opaque) of the isolation frame conditions: a payload received from a peer causes no datagram to leave the node (no relaying) and at most one interface write, byte-identical to the payload; only the DATA arm of handle_message writes to the interface; datagrams from addresses that are neither peers nor in a handshake never reach the interface, and if they are not handshake messages change nothing but counters; frames read from the own interface are never written back to it; send_msg sends nothing to a non-peer and at most one datagram, to the selected peer. The mode table deciding whether unknown destinations are flooded and whether traffic teaches next hops is a Kani block (all mode x device combinations). NOT decided by contracts: exactly-once delivery to every selected peer (broadcast loop over a HashMap), byte-identity across the AEAD, one peer entry per node (connect_to_peers: labelled loops) - searched on every run by the bounded stand-ins native/node_isolation.rs (every mode x device type, conservation per frame) and native/connect_peers.rs (labelled bounded).',
     'verus': [{'unit': 'cloud'},
               # the frames unit cloud assumes for the peer-management functions, proved on their real bodies
-              {'unit': 'peers', 'fns': ['GenericCloud::(add_new_peer|update_peer_info|remove_peer|connect_sock)', 'canary_.*']},
+              {'unit': 'peers', 'fns': ['GenericCloud::(add_new_peer|update_peer_info|remove_peer|connect_sock|housekeep_expiry_block)', 'lemma_take_contains', 'canary_.*']},
               # which peer is "selected" for a frame: the learned / claimed next hop (last writer wins, longest prefix)
               {'unit': 'table', 'fns': ['ClaimTable::cache', 'ClaimTable::lookup']}],
     # who is selected also depends on the two mode flags (flood unknown destinations? learn from traffic?): the mode table of GenericCloud::new
